@@ -18,6 +18,8 @@ var jsonBodies = []string{
 	`{"t":"nokey"}`,
 }
 
+var emptyBody = []byte{}
+
 var rawBodies = []string{
 	"raw-bytes\x00\x01\xff\xfe end",
 	"plain text, not json",
@@ -49,13 +51,13 @@ var expChoices = []uint32{0, 0, farExp, farExp + 77, relExp, relExp + 5}
 
 // Gen builds ops from a PRNG.
 type Gen struct {
-	R     *rng.R
-	Keys  []string
-	Colls int
-	Bkts  int
-	Hnd   int
+	R       *rng.R
+	Keys    []string
+	Colls   int
+	Bkts    int
+	Hnd     int
 	BadJSON int // if > 0, one in BadJSON xattr-setting ops carries an unparseable xattr value
-	n     int
+	n       int
 }
 
 func (g *Gen) uniq() string { g.n++; return fmt.Sprintf("%d", g.n) }
@@ -65,9 +67,14 @@ func (g *Gen) jsonBody() []byte {
 	// make the value unique so a read identifies the write it observed
 	return []byte(b[:len(b)-1] + `,"u":"` + g.uniq() + `"}`)
 }
-func (g *Gen) rawBody() []byte { return []byte(rng.Pick(g.R, rawBodies) + "#" + g.uniq()) }
-func (g *Gen) exp() uint32     { return rng.Pick(g.R, expChoices) }
-func (g *Gen) key() string     { return rng.Pick(g.R, g.Keys) }
+func (g *Gen) rawBody() []byte {
+	if g.R.Chance(1, 12) {
+		return emptyBody // a zero-length body is still a body
+	}
+	return []byte(rng.Pick(g.R, rawBodies) + "#" + g.uniq())
+}
+func (g *Gen) exp() uint32 { return rng.Pick(g.R, expChoices) }
+func (g *Gen) key() string { return rng.Pick(g.R, g.Keys) }
 func (g *Gen) casClass(w []int) string {
 	return []string{CasZero, CasCurrent, CasStale, CasBogus}[g.R.Weighted(w)]
 }
@@ -391,6 +398,9 @@ func Variants() []Op {
 	add(Op{Kind: KSet, Body: jb, Exp: farExp + 1})
 	add(Op{Kind: KSet, Body: jb, Exp: farExp + 2, Preserve: true})
 	add(Op{Kind: KSetRaw, Body: rb})
+	add(Op{Kind: KSetRaw, Body: []byte{}}) // a zero-length body is still a body
+	add(Op{Kind: KAddRaw, Body: []byte{}})
+	add(Op{Kind: KWriteCas, Raw: true, Body: []byte{}, CasClass: CasCurrent})
 	for _, cc := range []string{CasZero, CasCurrent, CasStale, CasBogus} {
 		add(Op{Kind: KWriteCas, Body: jb, CasClass: cc, Exp: farExp + 3})
 		add(Op{Kind: KWriteCas, Body: rb, Raw: true, CasClass: cc})
